@@ -122,7 +122,7 @@ package webtransport
 //@   ensures [C13.f1] result == nil ==> w.c.stream.$writes == old(w.c.stream.$writes) + 1
 //@   ensures [C13.f0] result != nil ==> w.c.stream.$writes == old(w.c.stream.$writes)
 //@   ensures [C13.fin] result == nil && final ==> w.err != nil && w.c.writer == nil
-//@   ensures [C13.cont] result == nil && !final ==> w.err == nil && w.pos == 9 && w.c.writeBuf == old(w.c.writeBuf)
+//@   ensures [C13.cont] result == nil && !final ==> w.err == nil && w.pos == 9 && w.c.writeBuf == old(w.c.writeBuf) && w.frameType == 0
 //@   ensures [C13.ferr] result != nil ==> w.err != nil
 //@   ensures [C13.fbuf] (w.c.writePool == nil ==> w.c.writeBuf == old(w.c.writeBuf)) && (w.c.writeBuf == old(w.c.writeBuf) || w.c.writeBuf == nil)
 //@   ensures !w.c.isWriting
@@ -257,3 +257,29 @@ package webtransport
 //@   trusted "prepared.go (sync.Once cache around WriteMessage on a fake connection) is outside the subset"
 //@   requires c != nil && pm != nil
 //@   modifies c.isWriting, c.writeErr
+
+// ReadMessage: the whole message of the frame NextReader yields, read to its end (not whatever one read call returns)
+//@ func (*Conn).ReadMessage()
+//@   props C13
+//@   requires c != nil && c.br != nil && c.session != nil && c.readRemaining >= 0 && c.readErrCount < 999
+//@   requires c.reader == nil || typeis(c.reader, *messageReader)
+//@   modifies *
+//@   ensures [C13.rm.kind]   calls((*Conn).NextReader) == 1 && messageType == ret((*Conn).NextReader, 1, 0)
+//@   ensures [C13.rm.whole]  ret((*Conn).NextReader, 1, 2) == nil ==> calls(io.ReadAll) == 1 && arg(io.ReadAll, 1, r) == ret((*Conn).NextReader, 1, 1) && p == ret(io.ReadAll, 1, 0) && err == ret(io.ReadAll, 1, 1)
+//@   ensures [C13.rm.fail]   ret((*Conn).NextReader, 1, 2) != nil ==> calls(io.ReadAll) == 0 && err == ret((*Conn).NextReader, 1, 2) && len(p) == 0
+
+// ReadFrom (the reader-fed write path): every byte the source hands over is accounted in the message buffer - also the
+// bytes that come together with the source's final error
+//@ func (*messageWriter).ReadFrom(r)
+//@   props C13, C09
+//@   requires w != nil && w.c != nil && w.c.stream != nil && !w.c.isWriting && r != nil
+//@   requires w.err == nil ==> len(w.c.writeBuf) > 9 && 9 <= w.pos && w.pos <= len(w.c.writeBuf) && (w.frameType == TextMessage || w.frameType == BinaryMessage)
+//@   opt noframe
+//@   modifies w.pos, w.frameType, w.err, w.c.writer, w.c.writeBuf, w.c.isWriting, w.c.writeErr, w.c.stream.$writes, Mem(w.c.writeBuf)
+//@   loop 1 invariant w != nil && w.c != nil && w.c.stream != nil && !w.c.isWriting && w.err == nil && len(w.c.writeBuf) > 9 && 9 <= w.pos && w.pos <= len(w.c.writeBuf) && w.c.writeBuf == old(w.c.writeBuf)
+//@   loop 1 invariant w.frameType == TextMessage || w.frameType == BinaryMessage || w.frameType == 0
+//@   ensures [C13.rf.noframe]  err == nil ==> w.c.stream.$writes == old(w.c.stream.$writes)   // no frame leaves before Close: one message, one frame
+//@   ensures [C13.rf.errfirst] old(w.err) != nil ==> err == old(w.err) && nn == 0 && calls(io.Reader.Read) == 0
+//@   ensures [C13.rf.account]  old(w.err) == nil && calls(io.Reader.Read) >= 1 && ret(io.Reader.Read, 1, 0) >= 0 ==> w.pos == off(arg(io.Reader.Read, 1, p)) - off(w.c.writeBuf) + ret(io.Reader.Read, 1, 0)
+//@   callsite io.Reader.Read#1
+//@     assert [C13.rf.target] backing($p) == backing(w.c.writeBuf) && off($p) == off(w.c.writeBuf) + w.pos && len($p) == len(w.c.writeBuf) - w.pos && len($p) > 0
